@@ -738,3 +738,80 @@ def install_more(models):
     del models.table[n0:]
     models.table[0:0] = new
     models._cache_lookup.clear()
+
+
+# ------------------------------------------------------------------------------------------------ String buffers
+class StrBuf:
+    """std::string::String built incrementally (String::new / push / push_str / reserve_exact / capacity)"""
+    def __init__(self):
+        self.chars = []; self.cap = 0
+
+    def __deepcopy__(self, memo):
+        b = StrBuf(); b.chars = list(self.chars); b.cap = self.cap
+        return b
+
+    def slice(self):
+        return StrSlice(SymStr(self.chars, "buf"), 0, len(self.chars))
+
+
+_as_slice_orig = as_slice
+
+
+def as_slice(v):          # noqa: F811  (StrBuf-aware)
+    w = v
+    while isinstance(w, Ref):
+        w = w.get()
+    if isinstance(w, StrBuf):
+        return w.slice()
+    return _as_slice_orig(v)
+
+
+def install_strbuf(models):
+    R = models.reg
+    n0 = len(models.table)
+
+    def deref(x):
+        while isinstance(x, Ref):
+            x = x.get()
+        return x
+
+    @R(r"^std::string::String::new$|^String::new$")
+    def _new(ex, c, a):
+        return StrBuf()
+
+    @R(r"^std::string::String::capacity$")
+    def _cap(ex, c, a):
+        b = deref(a[0])
+        return b.cap if isinstance(b, StrBuf) else len(as_slice(b).chars())
+
+    @R(r"^std::string::String::reserve_exact$|^std::string::String::reserve$")
+    def _reserve(ex, c, a):
+        b = deref(a[0])
+        n = a[1]
+        if isinstance(n, LenV):
+            n = n.maxval()
+        b.cap = max(b.cap, len(b.chars) + (n if isinstance(n, int) else 1), 1)
+        return UNIT
+
+    @R(r"^std::string::String::push$")
+    def _push(ex, c, a):
+        b = deref(a[0]); b.chars.append(a[1]); b.cap = max(b.cap, len(b.chars))
+        return UNIT
+
+    @R(r"^std::string::String::push_str$")
+    def _push_str(ex, c, a):
+        b = deref(a[0]); b.chars += as_slice(a[1]).chars(); b.cap = max(b.cap, len(b.chars))
+        return UNIT
+
+    @R(r"^<std::string::String as Deref>::deref$|^std::string::String::as_str$|^<std::string::String as AsRef<str>>::as_ref$|^<Cow<'_, str> as Deref>::deref$|^<Cow<'_, str> as ToString>::to_string$|^Cow::<'_, str>::into_owned$|^<Cow<'_, str> as AsRef<str>>::as_ref$")
+    def _deref(ex, c, a):
+        b = deref(a[0])
+        if isinstance(b, StrBuf):
+            return b.slice()
+        if isinstance(b, EnumV) and b.ty == "Cow":
+            return as_slice(b.fields[0])
+        return b
+    new = models.table[n0:]
+    del models.table[n0:]
+    models.table[0:0] = new
+    models._cache_lookup.clear()
